@@ -1,5 +1,5 @@
 #!/bin/bash
-# tools/sanitize.sh <memcheck|tsan|miri> <ID>  — supplementary sanitizer pass for one property's
+# tools/sanitize.sh <memcheck|tsan|miri|miri-wrapper> <ID>  — supplementary sanitizer pass for one property's
 # workload (thorough tier). The sanitized run writes no evidence of its own (TCV_NO_EVIDENCE); its
 # summary is merged into evidence/<ID>.json under coverage.sanitizers.
 # Exit 1 + "VIOLATION property=<ID> replay=<log>" only for a sanitizer report whose faulting access has
@@ -65,5 +65,23 @@ miri)
   fi
   tail -2 "$LOG"
   note ok 1 0 0
+  exit 0;;
+miri-wrapper)
+  # The actor wrapper (storage::send_wrapper) is private; the only pure-Rust way into it is the crate's own
+  # unit tests, which put it over InMemoryStorage. They are run from /repo's working tree under Miri (data-race
+  # detector, weak-memory emulation, several scheduler seeds) - a sanitizer pass over the thread / channel /
+  # rollback-on-drop code that C06 and C17 rely on. SQLite itself cannot be crossed by Miri.
+  SEEDS="${SAN_SEEDS:-6}"
+  cd /repo || exit 0
+  if ! MIRIFLAGS="-Zmiri-disable-isolation -Zmiri-many-seeds=0..$SEEDS" CARGO_TARGET_DIR="$V/harness/target-miri" \
+        timeout 3000 cargo +nightly miri test --offline --no-default-features --features storage-sqlite,bundled --lib storage::send_wrapper >"$LOG" 2>&1; then
+    if grep -q "Undefined Behavior\|data race\|Data race" "$LOG"; then
+      echo "miri-wrapper $ID: report, see $LOG"; note ok "$SEEDS" 1 0; echo "VIOLATION property=$ID replay=$LOG"; exit 1
+    fi
+    echo "sanitize: miri test run failed for another reason (skipped, see $LOG)"; note skipped-run 0 0 0; exit 0
+  fi
+  n=$(grep -o "[0-9]* passed" "$LOG" | head -1)
+  echo "miri-wrapper $ID: send_wrapper unit tests under Miri, $SEEDS scheduler seeds, $n per seed, no report"
+  note ok "$SEEDS" 0 0
   exit 0;;
 esac
